@@ -2,6 +2,11 @@
 
 package tcell
 
+import (
+	"github.com/gdamore/tcell/v2/terminfo"
+	"strings"
+)
+
 // C01 / C13 / C09(stream) — the terminal display equals the logical screen.
 //
 // Bounded histories through the public API from the real Init():
@@ -535,4 +540,42 @@ func H01_wide() {
 		e.c13(before, stamps, e.style, blk)
 		e.exempt = 0
 	}
+}
+
+// H01_allterms: every built-in description whose cursor addressing starts with CSI (the
+// ECMA-48 family): Init, a frame with plain, styled, wide and control content, Show, one
+// change, Show, Sync, then Fini - after every step the reference terminal shows what the
+// application set and the stream is well-formed; after Fini the terminal is restored.
+func H01_allterms() {
+	ents := terminfo.VerifEntries()
+	ti := ents[vsymChoice("term", len(ents))]
+	vsymNote("term", ti.Name)
+	if !strings.HasPrefix(ti.SetCursor, "\x1b[") || (len(ti.Clear) == 1 && ti.Clear[0] < 0x20) {
+		// not CSI-addressed, or clearing with a bare C0 control (sun: FF), which the
+		// reference terminal does not model: outside the claim
+		vsymAssert(ti.Name != "xterm-256color", "the ECMA-48 family includes xterm")
+		return
+	}
+	e := h01New(ti.Name, 4, 2, false)
+	st := StyleDefault.Bold(true).Foreground(PaletteColor(int(vsymByte("fg") & 7))).Background(PaletteColor(int(vsymByte("bg") & 7)))
+	e.set(0, 0, 'a', nil, StyleDefault)
+	e.set(1, 0, 'b', nil, st)
+	e.set(2, 0, 0x4e16, nil, StyleDefault.Underline(true))
+	e.set(0, 1, 'c', []rune{0x0301}, StyleDefault.Reverse(true))
+	e.set(1, 1, 0x07, nil, StyleDefault)
+	e.set(3, 1, 'z', nil, StyleDefault.Dim(true))
+	e.s.Show()
+	e.compare("frame 1")
+	r := vsymRune("r")
+	vsymAssume(vsymAnd(r >= 0x21, r <= 0x7e))
+	e.set(vsymChoice("x", 4), vsymChoice("y", 2), r, nil, st.Italic(true))
+	e.s.Show()
+	e.compare("frame 2")
+	e.s.Sync()
+	e.compare("after Sync")
+	e.s.Fini()
+	vt := e.tty.vt
+	vsymAssert(len(vt.bad) == 0, "after Fini: output is a well-formed ECMA-48 stream")
+	vsymAssert(!vt.alt && vt.cursorVis && !vt.keypad, "after Fini: primary screen, cursor visible, keypad mode off")
+	vsymAssert(vt.pen == (rvPen{}), "after Fini: colours and attributes are reset")
 }
